@@ -99,7 +99,8 @@ impl Parse for JoinInputDefault {
                 if join.futures_crate_path.is_some() {
                     return Err(input.error("futures_crate_path specified twice"));
                 }
-                join.futures_crate_path = Some(content.parse()?);
+                // The path is used in `use #path::{..}`, so it can't have generic arguments.
+                join.futures_crate_path = Some(content.call(syn::Path::parse_mod_style)?);
             }
 
             if input.peek(keywords::custom_joiner) {
